@@ -59,6 +59,7 @@ type FuncContract struct {
 	Panics   []*Clause // panics when <cond>: explicit panic permitted under cond
 	Wraps    bool      // arithmetic intentionally wraps (int mode: no overflow obligations)
 	Decoder  bool      // C11: inputs unconstrained, termination mandatory
+	IgnoreChan bool    // channel sends are no-ops (explicit assumption)
 	Abstract []string  // abstracted instruction patterns
 	Ghost    []GhostDecl
 	GhostAt  []*GhostAt
@@ -149,7 +150,7 @@ var clauseKW = map[string]bool{
 	"func": true, "spec": true, "lemma": true, "axiom": true, "trusted": true, "mode": true, "props": true,
 	"requires": true, "ensures": true, "modifies": true, "loop": true, "inline": true,
 	"pure": true, "nullable": true, "may_alias": true, "panics": true, "wraps": true,
-	"decoder": true, "abstract": true, "ghost": true, "terminates": true, "uninterp": true, "at": true, "opaque": true, "def": true, "table": true, "anymode": true, "uses": true, "embedded": true, "ghostfield": true,
+	"decoder": true, "abstract": true, "ghost": true, "terminates": true, "uninterp": true, "at": true, "opaque": true, "def": true, "table": true, "anymode": true, "uses": true, "embedded": true, "ghostfield": true, "channels": true,
 }
 
 var reTag = regexp.MustCompile(`^(\w+)\[([A-Z0-9, ]+)\]`)
@@ -491,6 +492,10 @@ func (cs *Contracts) ParseContractFile(path, pkgPath string) error {
 				cur.MayAlias = true
 			case "wraps":
 				cur.Wraps = true
+			case "channels":
+				// "channels ignored": channel sends in this function are treated as no-ops (what the
+				// receiving goroutine does is outside the contract); listed as an assumption
+				cur.IgnoreChan = true
 			case "decoder":
 				cur.Decoder = true
 			case "terminates":
@@ -521,6 +526,16 @@ func (cs *Contracts) ParseContractFile(path, pkgPath string) error {
 				}
 				cur.Ghost = append(cur.Ghost, g)
 			case "at":
+				if ka := strings.Index(rest, " assume "); ka >= 0 && !strings.Contains(rest[:ka], " ghost ") && !strings.Contains(rest[:ka], " assert ") {
+					e, err := ParseSpec(rest[ka+8:])
+					if err != nil {
+						return fail("%v", err)
+					}
+					ga := &GhostAt{Site: strings.Join(strings.Fields(rest[:ka]), " "), Line: ll.line}
+					ga.Stmts = append(ga.Stmts, GhostStmt{Assert: e, Assume: true, Src: strings.TrimSpace(rest[ka+8:])})
+					cur.GhostAt = append(cur.GhostAt, ga)
+					continue
+				}
 				if ka := strings.Index(rest, " assert "); ka >= 0 && !strings.Contains(rest[:ka], " ghost ") {
 					e, err := ParseSpec(rest[ka+8:])
 					if err != nil {
@@ -605,6 +620,7 @@ func topLevelAssign(s string) int {
 
 type GhostStmt struct {
 	Assert SpecExpr // non-nil: an intermediate assertion (proved, then assumed) instead of an assignment
+	Assume bool     // with Assert: not proved, only assumed (an explicit assumption, listed in the evidence)
 	Name  string
 	Index SpecExpr
 	Rhs   SpecExpr
